@@ -2,6 +2,7 @@ package main
 
 import (
 	"fmt"
+	"sync/atomic"
 
 	"verif/common"
 
@@ -71,17 +72,23 @@ func deepHeaps(r *common.Run) {
 		sizes = []int{12, 13, 14, 15}
 	}
 	var cases, starts int64
+	var cut int32
 	report := func(sig, text string, c map[string]any) {
 		r.Violation(sig, text, c, "")
 	}
 	for _, k := range comparators(r) {
 		cmp := k.fn()
 		for _, n := range sizes {
+			if k != cmpLess && k != cmpGreater && n > 12 {
+				continue // a comparator with more ties has far more arrangements: size 12 only
+			}
 			arrs := heapArrangements(n, cmp)
 			starts += int64(len(arrs))
-			for _, s := range arrs {
+			r.Parallel(len(arrs), func(ai int) {
+				s := arrs[ai]
 				if r.Expired() {
-					break
+					atomic.StoreInt32(&cut, 1)
+					return
 				}
 				for pos := 0; pos < n; pos++ {
 					// newVal == -1: Remove(pos); otherwise Value = newVal; Fix(pos)
@@ -89,7 +96,7 @@ func deepHeaps(r *common.Run) {
 						if newVal == s[pos] {
 							continue
 						}
-						cases += 3
+						atomic.AddInt64(&cases, 3)
 						opName := "Remove"
 						if newVal >= 0 {
 							opName = "Fix"
@@ -263,8 +270,11 @@ func deepHeaps(r *common.Run) {
 						}()
 					}
 				}
-			}
+			})
 		}
+	}
+	if cut != 0 {
+		r.Incomplete("deep heaps: the soft deadline passed before every arrangement was run")
 	}
 	r.Eval(cases)
 	r.Nontrivial(cases)
